@@ -32,7 +32,12 @@ def gen_case(rnd):
                 l += b"|#" + rnd.choice([b"k:v", b"k:w", b"j:v"])
         else:
             l = rnd.choice([b"other:1|c", b"other2:5|g", b"other3:3|ms"])
-        ops += [PE.I(l), "G"]
+        if rnd.random() < 0.15 and b"|#" not in l:
+            # the event reaches the exporter from a caller other than the parser, with a label value that is not valid UTF-8:
+            # the client library refuses it, the sample is dropped alone and must leave no claim on the name behind
+            ops += ["X " + vf.hexs(l + b"|#k:a!ffb"), "G"]
+        else:
+            ops += [PE.I(l), "G"]
         if rnd.random() < 0.15:
             ops += ["A 3000000000", "S", "G"]
     return (15, ("none", 0), ops, None)
